@@ -245,6 +245,15 @@ def call_parse(case):
     if case.get("probe"):
         install_absparser_probe()
         install_nospaces_probe()
+    for pre in case.get("pre") or []:
+        # earlier calls of the same process (their outcome is not judged here): what the judged call returns must not
+        # depend on them
+        try:
+            pk = dict(pre.get("kw") or {})
+            pf = pk.pop("date_formats", None)
+            DateDataParser(settings=decode_settings(pre.get("settings")), **pk).get_date_data(pre["s"], pf)
+        except Exception:  # noqa
+            pass
     _state.events = []
     kw = dict(case.get("kw") or {})
     st = decode_settings(case.get("settings"))
